@@ -51,6 +51,22 @@ def UGEntry.ofSexp : Sexp → Option UGEntry
   | .list [.atom "af", a] => do some (.formula (← SAnn.ofSexp a))
   | _ => none
 
+def SRole.name : SRole → String
+  | .assumption => "assumption" | .spec => "spec" | .lemma => "lemma"
+  | .definition => "definition" | .inductiveLemma => "inductive_lemma"
+
+def Direction.name : Direction → String
+  | .universal => "universal" | .forward => "forward" | .backward => "backward"
+
+def SAnn.toSexp (a : SAnn) : Sexp :=
+  .list [.atom a.role.name, .atom a.direction.name, .str a.name, a.formula.toSexp]
+
+def UGEntry.toSexp : UGEntry → Sexp
+  | .input p => .list [.atom "in", p.toSexp]
+  | .output p => .list [.atom "out", p.toSexp]
+  | .placeholder n s => .list [.atom "ph", .str n, s.toSexp]
+  | .formula a => .list [.atom "af", a.toSexp]
+
 def specSideOfSexp : Sexp → Option (Sum Asp.Program Specification)
   | .list [.atom "prog", p] => do some (.inl (← Asp.programOfSexp p))
   | .list [.atom "spec", s] => do some (.inr (← listOf SAnn.ofSexp s))
